@@ -29,6 +29,9 @@ func (p *c05) NumCases(tier string) int {
 
 // c05Cond returns a typed condition over the item attributes a:S, v:N, g:S, s:S.
 func c05Cond(r *rand.Rand, values val.Item) *refmodel.Cond {
+	if r.Intn(4) == 0 {
+		return c05DocCond(r, values)
+	}
 	switch r.Intn(4) {
 	case 0:
 		attr := mon.Pick(r, []string{"a", "g", "s", "v", "h", "r"})
@@ -47,6 +50,77 @@ func c05Cond(r *rand.Rand, values val.Item) *refmodel.Cond {
 			values[k] = v
 		}
 		return &refmodel.Cond{Op: mon.Pick(r, []string{"and", "or"}), Kids: []*refmodel.Cond{a, b}}
+	}
+}
+
+// c05DocCond: guards on MEMBERS of documents - a BOOL / NULL / number / set element reached through a list index
+// or a map member - of every scalar type, not only strings (items carry the attributes flags and cfg, see c05Doc).
+func c05DocCond(r *rand.Rand, values val.Item) *refmodel.Cond {
+	n := len(values)
+	nv := func(v val.V) refmodel.Operand {
+		name := fmt.Sprintf(":d%d_%d", n, len(values))
+		values[name] = v
+		return refmodel.Operand{Kind: "val", Val: name}
+	}
+	pt := func(els ...interface{}) refmodel.Operand {
+		p := refmodel.Path{}
+		for _, e := range els {
+			switch t := e.(type) {
+			case string:
+				p = append(p, refmodel.PathEl{Name: t})
+			case int:
+				p = append(p, refmodel.PathEl{IsIdx: true, Idx: t})
+			}
+		}
+		return refmodel.Operand{Kind: "path", Path: p}
+	}
+	eq := func() string { return mon.Pick(r, []string{"=", "<>"}) }
+	switch r.Intn(12) {
+	case 0:
+		return &refmodel.Cond{Op: "cmp", Cmp: eq(), Args: []refmodel.Operand{pt("flags", r.Intn(3)), nv(val.Bool(r.Intn(2) == 0))}}
+	case 1:
+		return &refmodel.Cond{Op: "cmp", Cmp: eq(), Args: []refmodel.Operand{pt("cfg", "on"), nv(val.Bool(r.Intn(2) == 0))}}
+	case 2:
+		return &refmodel.Cond{Op: "cmp", Cmp: eq(), Args: []refmodel.Operand{pt("cfg", "none"), nv(val.Null())}}
+	case 3:
+		return &refmodel.Cond{Op: "cmp", Cmp: mon.Pick(r, []string{"=", "<>", "<", ">="}), Args: []refmodel.Operand{pt("cfg", "lvl"), nv(val.Num(fmt.Sprint(r.Intn(4))))}}
+	case 4:
+		return &refmodel.Cond{Op: "contains", Args: []refmodel.Operand{pt("cfg", "tags"), nv(val.Str(mon.Pick(r, []string{"t1", "t2", "t9"})))}}
+	case 5:
+		return &refmodel.Cond{Op: "cmp", Cmp: mon.Pick(r, []string{"=", ">", "<"}), Args: []refmodel.Operand{{Kind: "size", Path: refmodel.P("flags")}, nv(val.Num(fmt.Sprint(1 + r.Intn(3))))}}
+	case 6:
+		return &refmodel.Cond{Op: "type", Args: []refmodel.Operand{pt("flags", r.Intn(3)), nv(val.Str(mon.Pick(r, []string{"BOOL", "S", "NULL"})))}}
+	case 7:
+		return &refmodel.Cond{Op: "in", Args: []refmodel.Operand{pt("flags", r.Intn(2)), nv(val.Bool(true)), nv(val.Str("x"))}}
+	case 8:
+		return &refmodel.Cond{Op: mon.Pick(r, []string{"exists", "notexists"}), Args: []refmodel.Operand{pt("flags", 2+r.Intn(2))}}
+	case 9:
+		return &refmodel.Cond{Op: "cmp", Cmp: eq(), Args: []refmodel.Operand{pt("cfg", "bin"), nv(val.Bin(mon.Pick(r, []string{"\x01", "\x02"})))}}
+	case 10:
+		return &refmodel.Cond{Op: "cmp", Cmp: eq(), Args: []refmodel.Operand{pt("flags", 0), pt("cfg", "on")}}
+	default:
+		return &refmodel.Cond{Op: "cmp", Cmp: eq(), Args: []refmodel.Operand{pt("cfg", "tags"), nv(val.SS("t1", "t2"))}}
+	}
+}
+
+// c05Doc adds the document attributes the guards of c05DocCond look at.
+func c05Doc(r *rand.Rand, it val.Item) {
+	if r.Intn(3) != 0 {
+		fl := []val.V{val.Bool(r.Intn(2) == 0), val.Bool(r.Intn(2) == 0)}
+		if r.Intn(2) == 0 {
+			fl = append(fl, mon.Pick(r, []val.V{val.Str("x"), val.Null(), val.Bool(true)}))
+		}
+		it["flags"] = val.V{K: val.KL, L: fl}
+	}
+	if r.Intn(3) != 0 {
+		m := map[string]val.V{"on": val.Bool(r.Intn(2) == 0), "lvl": val.Num(fmt.Sprint(r.Intn(4))), "tags": val.SS(mon.Pick(r, []string{"t1", "t2"}), "t3"), "bin": val.Bin(mon.Pick(r, []string{"\x01", "\x02"}))}
+		if r.Intn(2) == 0 {
+			m["none"] = val.Null()
+		}
+		if r.Intn(4) == 0 {
+			m["tags"] = val.SS("t1", "t2")
+		}
+		it["cfg"] = val.Map(m)
 	}
 }
 
@@ -106,6 +180,7 @@ func (p *c05) RunCase(ctx *runner.Ctx) runner.CaseResult {
 		if r.Intn(5) == 0 {
 			delete(it, "v")
 		}
+		c05Doc(r, it)
 		return it
 	}
 	keys := mon.KeyLog{}
